@@ -179,6 +179,8 @@ type Presentation struct {
 	//                 byte is '<': the stream begins like " <"
 	//   "dyn-prefix"  an empty dynamic-Huffman block with HLIT = Level%8+2 first (first byte 0x14 .. 0x4C, among
 	//                 them '<' for HLIT 7), an empty stored block to re-align, then the compress/flate stream
+	//   "ratio"       trailing white space is added until the document is exactly r (by Level: 3,4,5,6,8,16,2,32)
+	//                 times as long as its compress/flate encoding
 	//   "stored-tail" the compress/flate stream followed by nothing else, but cut into stored blocks of 1 KiB
 	Style string `json:"style,omitempty"`
 }
@@ -202,6 +204,24 @@ func (p Presentation) Compress(xml []byte) []byte {
 	case "dyn-prefix":
 		hlit := ((p.Level%8)+8)%8 + 2
 		return append(EmptyDynamicBlock(hlit), Deflate(xml, 6)...)
+	case "ratio":
+		// white space after the root (legal, outside every signature) until the document is exactly r times as long
+		// as its encoding: buffer-growth arithmetic meets its boundary
+		r := []int{3, 4, 5, 6, 8, 16, 2, 32}[((p.Level%8)+8)%8]
+		k := 0
+		for iter := 0; iter < 60; iter++ {
+			doc := append(append([]byte{}, xml...), bytes.Repeat([]byte{' '}, k)...)
+			c := Deflate(doc, 6)
+			want := r*len(c) - len(xml)
+			if want == k {
+				return c
+			}
+			if want < 0 {
+				break
+			}
+			k = want
+		}
+		return Deflate(xml, 6)
 	case "stored-tail":
 		bl := []int{}
 		for i := 0; i*1024 < len(xml); i++ {
